@@ -66,7 +66,7 @@ class MeshTet1(MeshSimplex, Mesh3D):
                 ix = np.arange(nelems, dtype=np.int32)
 
             X = mapping.invF(np.array([x, y, z])[:, None], ix)
-            eps = np.finfo(X.dtype).eps
+            eps = 100 * np.finfo(X.dtype).eps
             inside = ((X[0] >= -eps) *
                       (X[1] >= -eps) *
                       (X[2] >= -eps) *
